@@ -1,28 +1,31 @@
 /-
-C17 for `Color488Code`, ALL sizes of the supported family (square lattices `Lx = Ly = L ≥ 1`, no
-upper bound): the distance `code.d` reports is the true code distance, `2L` — for the undeformed
-code and for the deformed code the class offers (`'XXZZ'`).
+C17 for `Color488Code`, ALL sizes of the supported family (`Lx, Ly ≥ 1`, square or rectangular, no
+upper bound): the distance `code.d` reports is the true code distance, `min (2Lx) (2Ly)` — for the
+undeformed code and for the deformed code the class offers (`'XXZZ'`).
 
 The matrices are the ones the generic code model assembles from the hand-written lattice model
 `Model/Lattices/Color488Code.lean` (tied to `panqec/codes/color_2d/_color_488_code.py` by the
-correspondence streams of `harness/lattices/color488code.py`); they form a valid `[[8L², 4]]` code
-for every `L ≥ 1` (`C01Color488Code.valid_code`).
+correspondence streams of `harness/lattices/color488code.py`); they form a valid `[[8·Lx·Ly, 4]]`
+code for every `Lx, Ly ≥ 1` (`C01Color488Code.valid_code`).
 
-* `weights_listed`, `reported_distance` — each of the four rows of `logicals_x` and of `logicals_z`
-  (a single letter on the qubits of the column `x = 3` / `x = 7` or of the row `y = 5` / `y = 1`) has
-  weight `2L`; `code.d` (`distance`, the minimum Pauli weight over the listed logicals, as
-  `StabilizerCode.d` computes it) is `2L`.
-* `lower_bound` — every non-trivial logical operator has weight `≥ 2L`.  Packing argument
-  (`Proofs/DistLattice.lean`, `Proofs/DistColor488Code{A,B}.lean`): a non-trivial logical
-  anticommutes with one of the eight listed logicals (C04).  The column `x = 3` has the `2L`
+* `weights_listed`, `reported_distance` — the rows of `logicals_x` (a single letter on the qubits of
+  the column `x = 3` / `x = 7`, then of the row `y = 5` / `y = 1`) have weights `2Ly, 2Ly, 2Lx, 2Lx`,
+  those of `logicals_z` weights `2Lx, 2Lx, 2Ly, 2Ly`; `code.d` (`distance`, the minimum Pauli weight
+  over the listed logicals, as `StabilizerCode.d` computes it) is `min (2Lx) (2Ly)`.  (Before the
+  repair of the logical operators the column `x = 7` and the row `y = 1` were cut or over-run for
+  `Lx ≠ Ly`; regression theorems in `Properties/C01Color488Code.lean`.)
+* `lower_bound` — every non-trivial logical operator has weight `≥ min (2Lx) (2Ly)`.  Packing
+  argument (`Proofs/DistLattice.lean`, `Proofs/DistColor488Code{A,B}.lean`): a non-trivial logical
+  anticommutes with one of the eight listed logicals (C04).  The column `x = 3` has the `2Lx`
   translates `x = 8a+3, 8a+5`: the columns `8a+3` and `8a+5` differ by the column of red squares
   between them, the columns `8a+5` and `8a+11` by the column of octagons and squares between them
   (the corners of the squares are counted twice).  The same holds for the column `x = 7` (translates
-  `8a+7, 8a+9`, the last one wrapping to `x = 1`) and, transposed, for the rows.  So every operator
-  commuting with all generators anticommutes with each translate exactly when it anticommutes with
-  the listed logical: its support meets each of the `2L` disjoint translates.
-* `distance` — `IsDistance (8L²) H (2L)`: some non-trivial logical operator has that weight and none
-  is lighter; `distance_reported` states it for the reported `d`.
+  `8a+7, 8a+9`, the last one wrapping to `x = 1`) and, transposed, for the rows (`2Ly` translates
+  each).  So every operator commuting with all generators anticommutes with each translate exactly
+  when it anticommutes with the listed logical: its support meets each of the `2Lx` (resp. `2Ly`)
+  disjoint translates.
+* `distance` — `IsDistance (8·Lx·Ly) H (min (2Lx) (2Ly))`: some non-trivial logical operator has
+  that weight and none is lighter; `distance_reported` states it for the reported `d`.
 * `distance_deformed`, `distance_deformed_offered` — the same for the deformed code
   (`deform('XXZZ')`; every other name raises), every size (`C17.distance_deformation_invariant`).
 -/
@@ -34,38 +37,49 @@ import PanqecVerif.Proofs.DistDeform
 namespace Panqec.C17Color488Code
 open Panqec.Color488Code Panqec.Color
 
-/-- every row of `logicals_x` and of `logicals_z` has Pauli weight `2L` — every `L ≥ 1` -/
-theorem weights_listed (L : Nat) (hL : 1 ≤ L) :
-    (lattice L L).rowsX.map pauliWeight = [2 * L, 2 * L, 2 * L, 2 * L] ∧
-    (lattice L L).rowsZ.map pauliWeight = [2 * L, 2 * L, 2 * L, 2 * L] :=
-  Color488Code.weights_listed hL (C01Color488Code.wf L hL)
+/-- the rows of `logicals_x` have Pauli weights `2Ly, 2Ly, 2Lx, 2Lx` (columns `x = 3`, `x = 7`,
+    rows `y = 5`, `y = 1`), those of `logicals_z` weights `2Lx, 2Lx, 2Ly, 2Ly` — every
+    `Lx, Ly ≥ 1` -/
+theorem weights_listed (Lx Ly : Nat) (hx : 1 ≤ Lx) (hy : 1 ≤ Ly) :
+    (lattice Lx Ly).rowsX.map pauliWeight = [2 * Ly, 2 * Ly, 2 * Lx, 2 * Lx] ∧
+    (lattice Lx Ly).rowsZ.map pauliWeight = [2 * Lx, 2 * Lx, 2 * Ly, 2 * Ly] :=
+  Color488Code.weights_listed hx hy (C01Color488Code.wf Lx Ly hx hy)
 
-/-- what `code.d` returns — the minimum weight over the listed logical operators — is `2L`, every
-    `L ≥ 1` -/
-theorem reported_distance (L : Nat) (hL : 1 ≤ L) :
-    Panqec.distance (lattice L L).rowsX (lattice L L).rowsZ = some (2 * L) :=
-  Color488Code.reported_distance hL (C01Color488Code.wf L hL)
+/-- what `code.d` returns — the minimum weight over the listed logical operators — is
+    `min (2Lx) (2Ly)`, every `Lx, Ly ≥ 1` -/
+theorem reported_distance (Lx Ly : Nat) (hx : 1 ≤ Lx) (hy : 1 ≤ Ly) :
+    Panqec.distance (lattice Lx Ly).rowsX (lattice Lx Ly).rowsZ = some (min (2 * Lx) (2 * Ly)) :=
+  Color488Code.reported_distance hx hy (C01Color488Code.wf Lx Ly hx hy)
 
 /-- no non-trivial logical operator (commutes with every generator, is not a product of
-    generators) of the `L × L` 4.8.8 colour code is lighter than `2L` — every `L ≥ 1` -/
-theorem lower_bound (L : Nat) (hL : 1 ≤ L) :
-    ∀ v, IsNontrivialLogical (8 * (L * L)) (lattice L L).rowsH v → 2 * L ≤ pauliWeight v :=
-  Color488Code.lower_bound hL (C01Color488Code.wf L hL) (C01Color488Code.n_formula L hL)
-    (C01Color488Code.valid_code L hL).2.2.2
+    generators) of the `Lx × Ly` 4.8.8 colour code is lighter than `min (2Lx) (2Ly)` — every
+    `Lx, Ly ≥ 1` -/
+theorem lower_bound (Lx Ly : Nat) (hx : 1 ≤ Lx) (hy : 1 ≤ Ly) :
+    ∀ v, IsNontrivialLogical (8 * (Lx * Ly)) (lattice Lx Ly).rowsH v →
+      min (2 * Lx) (2 * Ly) ≤ pauliWeight v :=
+  Color488Code.lower_bound hx hy (C01Color488Code.wf Lx Ly hx hy)
+    (C01Color488Code.n_formula Lx Ly hx hy) (C01Color488Code.valid_code Lx Ly hx hy).2.2.2
 
-/-- THE C17 STATEMENT FOR ALL SIZES of the supported family (`Lx = Ly = L ≥ 1`): the code distance
-    of the `L × L` 4.8.8 colour code — the minimum weight of a non-trivial logical operator of the
-    assembled parity-check matrix — is `2L` -/
-theorem distance (L : Nat) (hL : 1 ≤ L) : IsDistance (8 * (L * L)) (lattice L L).rowsH (2 * L) :=
-  distance_criterion (C01Color488Code.valid_code L hL).2.2.2 (2 * L)
-    (exists_listed_of_distance _ _ _ (reported_distance L hL)) (lower_bound L hL)
+/-- THE C17 STATEMENT FOR ALL SIZES of the supported family (`Lx, Ly ≥ 1`): the code distance of
+    the `Lx × Ly` 4.8.8 colour code — the minimum weight of a non-trivial logical operator of the
+    assembled parity-check matrix — is `min (2Lx) (2Ly)` -/
+theorem distance (Lx Ly : Nat) (hx : 1 ≤ Lx) (hy : 1 ≤ Ly) :
+    IsDistance (8 * (Lx * Ly)) (lattice Lx Ly).rowsH (min (2 * Lx) (2 * Ly)) :=
+  distance_criterion (C01Color488Code.valid_code Lx Ly hx hy).2.2.2 (min (2 * Lx) (2 * Ly))
+    (exists_listed_of_distance _ _ _ (reported_distance Lx Ly hx hy)) (lower_bound Lx Ly hx hy)
+
+/-- the square case in the familiar form: the `L × L` code has distance `2L` -/
+theorem distance_square (L : Nat) (hL : 1 ≤ L) :
+    IsDistance (8 * (L * L)) (lattice L L).rowsH (2 * L) := by
+  have h := distance L L hL hL
+  rwa [Nat.min_self] at h
 
 /-- the same, stated for whatever `code.d` reports: the reported distance exists and is the
     true distance -/
-theorem distance_reported (L : Nat) (hL : 1 ≤ L) :
-    ∃ d, Panqec.distance (lattice L L).rowsX (lattice L L).rowsZ = some d ∧
-      IsDistance (8 * (L * L)) (lattice L L).rowsH d :=
-  ⟨_, reported_distance L hL, distance L hL⟩
+theorem distance_reported (Lx Ly : Nat) (hx : 1 ≤ Lx) (hy : 1 ≤ Ly) :
+    ∃ d, Panqec.distance (lattice Lx Ly).rowsX (lattice Lx Ly).rowsZ = some d ∧
+      IsDistance (8 * (Lx * Ly)) (lattice Lx Ly).rowsH d :=
+  ⟨_, reported_distance Lx Ly hx hy, distance Lx Ly hx hy⟩
 
 /-! ### deformed code (`code.deform('XXZZ')`) -/
 
@@ -81,35 +95,40 @@ theorem deformation_isPerm {name : String} {loc : Coord} {m : PauliMap}
 
 /-- the class offers the deformation 'XXZZ': `get_deformation` is defined on every qubit of every
     lattice (any other name raises, `C01Color488Code.deformation_rule_bad_name`) -/
-theorem deformation_defined (L : Nat) (hL : 1 ≤ L) (q : Coord) (hq : q ∈ (lattice L L).qubits) :
+theorem deformation_defined (Lx Ly : Nat) (hx : 1 ≤ Lx) (hy : 1 ≤ Ly) (q : Coord)
+    (hq : q ∈ (lattice Lx Ly).qubits) :
     ∃ m, getDeformation "XXZZ" q = DeformResult.map m := by
-  obtain ⟨x, y, rfl, _⟩ := C01Color488Code.deformation_rule_on_qubits L hL q hq
+  obtain ⟨x, y, rfl, _⟩ := C01Color488Code.deformation_rule_on_qubits Lx Ly hx hy q hq
   exact ⟨_, C01Color488Code.deformation_rule x y⟩
 
-/-- THE C17 STATEMENT FOR EVERY DEFORMED CODE OF THE CLASS, ALL SIZES (`L ≥ 1`): for every
+/-- THE C17 STATEMENT FOR EVERY DEFORMED CODE OF THE CLASS, ALL SIZES (`Lx, Ly ≥ 1`): for every
     deformation name for which `get_deformation` returns a map on the qubits (`D q` = the relabelling
     it returns on `q`), the matrices the deformed getters assemble are the relabelled rows, they form
-    a valid `[[8L², 4]]` code, `code.d` reports `2L`, and that is the true distance of the deformed
-    code -/
-theorem distance_deformed (L : Nat) (hL : 1 ≤ L) (name : String) (D : Coord → PauliMap)
-    (hD : ∀ q ∈ (lattice L L).qubits, getDeformation name q = DeformResult.map (D q)) :
-    stabilizerMatrix ((lattice L L).toCodeData.deform D) =
-        some ((lattice L L).rowsH.map (deformBsf ((lattice L L).qubits.map D))) ∧
-    logicalsX ((lattice L L).toCodeData.deform D) =
-        some ((lattice L L).rowsX.map (deformBsf ((lattice L L).qubits.map D))) ∧
-    logicalsZ ((lattice L L).toCodeData.deform D) =
-        some ((lattice L L).rowsZ.map (deformBsf ((lattice L L).qubits.map D))) ∧
-    ValidCodeL (8 * (L * L)) 4
-      ((lattice L L).rowsH.map (deformBsf ((lattice L L).qubits.map D)))
-      ((lattice L L).rowsX.map (deformBsf ((lattice L L).qubits.map D)))
-      ((lattice L L).rowsZ.map (deformBsf ((lattice L L).qubits.map D))) ∧
-    Panqec.distance ((lattice L L).rowsX.map (deformBsf ((lattice L L).qubits.map D)))
-      ((lattice L L).rowsZ.map (deformBsf ((lattice L L).qubits.map D))) = some (2 * L) ∧
-    IsDistance (8 * (L * L))
-      ((lattice L L).rowsH.map (deformBsf ((lattice L L).qubits.map D))) (2 * L) :=
-  Lattice.deformed_distance (lattice L L) (C01Color488Code.wf L hL)
-    (C01Color488Code.n_formula L hL) (C01Color488Code.valid_code L hL).2.2.2
-    (reported_distance L hL) (distance L hL) D (fun q hq => deformation_isPerm (hD q hq))
+    a valid `[[8·Lx·Ly, 4]]` code, `code.d` reports `min (2Lx) (2Ly)`, and that is the true distance
+    of the deformed code -/
+theorem distance_deformed (Lx Ly : Nat) (hx : 1 ≤ Lx) (hy : 1 ≤ Ly) (name : String)
+    (D : Coord → PauliMap)
+    (hD : ∀ q ∈ (lattice Lx Ly).qubits, getDeformation name q = DeformResult.map (D q)) :
+    stabilizerMatrix ((lattice Lx Ly).toCodeData.deform D) =
+        some ((lattice Lx Ly).rowsH.map (deformBsf ((lattice Lx Ly).qubits.map D))) ∧
+    logicalsX ((lattice Lx Ly).toCodeData.deform D) =
+        some ((lattice Lx Ly).rowsX.map (deformBsf ((lattice Lx Ly).qubits.map D))) ∧
+    logicalsZ ((lattice Lx Ly).toCodeData.deform D) =
+        some ((lattice Lx Ly).rowsZ.map (deformBsf ((lattice Lx Ly).qubits.map D))) ∧
+    ValidCodeL (8 * (Lx * Ly)) 4
+      ((lattice Lx Ly).rowsH.map (deformBsf ((lattice Lx Ly).qubits.map D)))
+      ((lattice Lx Ly).rowsX.map (deformBsf ((lattice Lx Ly).qubits.map D)))
+      ((lattice Lx Ly).rowsZ.map (deformBsf ((lattice Lx Ly).qubits.map D))) ∧
+    Panqec.distance ((lattice Lx Ly).rowsX.map (deformBsf ((lattice Lx Ly).qubits.map D)))
+      ((lattice Lx Ly).rowsZ.map (deformBsf ((lattice Lx Ly).qubits.map D)))
+        = some (min (2 * Lx) (2 * Ly)) ∧
+    IsDistance (8 * (Lx * Ly))
+      ((lattice Lx Ly).rowsH.map (deformBsf ((lattice Lx Ly).qubits.map D)))
+      (min (2 * Lx) (2 * Ly)) :=
+  Lattice.deformed_distance (lattice Lx Ly) (C01Color488Code.wf Lx Ly hx hy)
+    (C01Color488Code.n_formula Lx Ly hx hy) (C01Color488Code.valid_code Lx Ly hx hy).2.2.2
+    (reported_distance Lx Ly hx hy) (distance Lx Ly hx hy) D
+    (fun q hq => deformation_isPerm (hD q hq))
 
 /-- the relabelling `get_deformation(·, name)` as a function of the location (identity where it
     raises — nowhere on the qubits for the offered name) -/
@@ -118,31 +137,41 @@ def deformationOf (name : String) (q : Coord) : PauliMap :=
   | DeformResult.map m => m
   | _ => PauliMap.id
 
-/-- the 'XXZZ' code has distance `2L` — every size of the family -/
-theorem distance_deformed_offered (L : Nat) (hL : 1 ≤ L) :
-    IsDistance (8 * (L * L))
-      ((lattice L L).rowsH.map (deformBsf ((lattice L L).qubits.map (deformationOf "XXZZ"))))
-      (2 * L) :=
-  (distance_deformed L hL "XXZZ" (deformationOf "XXZZ") (fun q hq => by
-      obtain ⟨m, hm⟩ := deformation_defined L hL q hq
+/-- the 'XXZZ' code has distance `min (2Lx) (2Ly)` — every size of the family -/
+theorem distance_deformed_offered (Lx Ly : Nat) (hx : 1 ≤ Lx) (hy : 1 ≤ Ly) :
+    IsDistance (8 * (Lx * Ly))
+      ((lattice Lx Ly).rowsH.map (deformBsf ((lattice Lx Ly).qubits.map (deformationOf "XXZZ"))))
+      (min (2 * Lx) (2 * Ly)) :=
+  (distance_deformed Lx Ly hx hy "XXZZ" (deformationOf "XXZZ") (fun q hq => by
+      obtain ⟨m, hm⟩ := deformation_defined Lx Ly hx hy q hq
       unfold deformationOf
       rw [hm])).2.2.2.2.2
 
 /-! ### non-vacuity -/
 
-example : IsDistance 8 (lattice 1 1).rowsH 2 := distance 1 (by decide)
-example : IsDistance 72 (lattice 3 3).rowsH 6 := distance 3 (by decide)
-example : IsDistance 800 (lattice 10 10).rowsH 20 := distance 10 (by decide)
+example : IsDistance 8 (lattice 1 1).rowsH 2 := distance 1 1 (by decide) (by decide)
+example : IsDistance 72 (lattice 3 3).rowsH 6 := distance_square 3 (by decide)
+example : IsDistance 800 (lattice 10 10).rowsH 20 := distance_square 10 (by decide)
+/-- rectangular: the `2 × 3` code (not a valid code before the repair) has distance 4, the
+    `7 × 3` code distance 6, the `1 × 9` code distance 2 -/
+example : IsDistance 48 (lattice 2 3).rowsH 4 := distance 2 3 (by decide) (by decide)
+example : IsDistance 168 (lattice 7 3).rowsH 6 := distance 7 3 (by decide) (by decide)
+example : IsDistance 72 (lattice 1 9).rowsH 2 := distance 1 9 (by decide) (by decide)
 /-- the hypothesis of `lower_bound` is satisfiable: the first listed logical X is a non-trivial
     logical operator -/
 example : IsNontrivialLogical 8 (lattice 1 1).rowsH ((lattice 1 1).rowsX.getD 0 []) :=
-  listedX_nontrivial (C01Color488Code.valid_code 1 (by decide)).2.2.2 (by decide +kernel)
+  listedX_nontrivial (C01Color488Code.valid_code 1 1 (by decide) (by decide)).2.2.2 (by decide +kernel)
 example : (lattice 3 3).rowsX.map pauliWeight = [6, 6, 6, 6] ∧
-    (lattice 3 3).rowsZ.map pauliWeight = [6, 6, 6, 6] := weights_listed 3 (by decide)
-/-- the 'XXZZ' code on the `4 × 4` lattice has distance 8 -/
+    (lattice 3 3).rowsZ.map pauliWeight = [6, 6, 6, 6] := weights_listed 3 3 (by decide) (by decide)
+example : (lattice 2 3).rowsX.map pauliWeight = [6, 6, 4, 4] ∧
+    (lattice 2 3).rowsZ.map pauliWeight = [4, 4, 6, 6] := weights_listed 2 3 (by decide) (by decide)
+/-- the 'XXZZ' code on the `4 × 4` lattice has distance 8, on the `4 × 2` lattice distance 4 -/
 example : IsDistance 128 ((lattice 4 4).rowsH.map
     (deformBsf ((lattice 4 4).qubits.map (deformationOf "XXZZ")))) 8 :=
-  distance_deformed_offered 4 (by decide)
+  distance_deformed_offered 4 4 (by decide) (by decide)
+example : IsDistance 64 ((lattice 4 2).rowsH.map
+    (deformBsf ((lattice 4 2).qubits.map (deformationOf "XXZZ")))) 4 :=
+  distance_deformed_offered 4 2 (by decide) (by decide)
 example : deformationOf "XXZZ" [7, 1] = PauliMap.swapXZ := by decide +kernel
 
 end Panqec.C17Color488Code
